@@ -35,7 +35,7 @@ fn records() -> Vec<V> {
         // integers that differ only beyond 2^53 (never compared with each other by a sort key of the menu)
         "{\"k\":\"b\",\"v\":9007199254740993,\"items\":[9007199254740992,9007199254740993,9007199254740992]}",
         // two different items that differ only in where a nested object closes (same members in the same order of appearance)
-        "{\"k\":\"c\",\"v\":2,\"items\":[{\"a\":{\"b\":1}},{\"a\":{},\"b\":1},{\"a\":{\"b\":1}}]}",
+        "{\"k\":\"c\",\"v\":2,\"items\":[{\"a\":{\"b\":1}},{\"a\":{},\"b\":1},{\"a\":{\"b\":1}},2]}",
     ]
     .iter()
     .map(|t| json::parse_str(t))
